@@ -266,3 +266,45 @@ ob("C14", "ast.json_schema", {"t0": R(0, 5), "t1": R(0, 5), "has_desc": BOOL, "h
    funcs=["cdd.json_schema.parse.json_schema", "cdd.json_schema.utils.parse_utils.json_schema_property_to_param"],
    bound="hand-written JSON-schema with two properties of ANY of the six JSON types, description (2 symbolic printable characters) present or not, default present or not, "
          "pattern present or not, ANY subset required: the returned interface is well-formed and has exactly the two properties")(json_schema_parser)
+
+
+JT_ANY = ("string", "integer", "number", "boolean", "object", "array", "null")
+
+
+def json_schema_anyof(n, a0, a1, a2, req, fmt_mask):
+    """a property given as anyOf of 1..3 alternatives (several of them may be strings with different formats)"""
+    import cdd.json_schema.parse as P
+
+    def jt(t):
+        v = JT_ANY[0]
+        for k in range(1, len(JT_ANY)):
+            if t == k:
+                v = JT_ANY[k]
+        return v
+
+    alts = []
+    for i, a in enumerate((a0, a1, a2)[:n]):
+        alt = {"type": jt(a)}
+        if alt["type"] == "string" and fmt_mask & (1 << i):
+            alt["format"] = ("date", "date-time", "email")[i]
+        alts.append(alt)
+    schema = {"$id": "https://example.test/y.schema.json", "description": "Top.", "type": "object",
+              "properties": {"alpha": {"anyOf": alts, "description": "the alpha"}, "beta": {"type": "integer"}}, "required": ["alpha"] if req else []}
+    try:
+        back = P.json_schema(schema)
+    except Exception:
+        return ""
+    if "type" not in back:
+        back = dict(back, type=None)
+    d = wf(back)
+    if d:
+        return d
+    if list(back["params"]) != ["alpha", "beta"]:
+        return "properties ['alpha', 'beta'] came back as parameters %r" % (list(back["params"]),)
+    return ""
+
+
+ob("C14", "ast.json_schema.anyof", {"n": R(1, 3), "a0": R(0, 6), "a1": R(0, 6), "a2": R(0, 6), "req": BOOL, "fmt_mask": R(0, 7)}, T=900, tpath=60,
+   funcs=["cdd.json_schema.parse.json_schema", "cdd.json_schema.utils.parse_utils.json_schema_property_to_param"],
+   bound="hand-written JSON-schema whose first property is an anyOf of 1..3 alternatives, each of ANY of the seven JSON types (repeats allowed), string alternatives with or without a "
+         "format, required or not (solver-enumerated): the returned interface is well-formed - in particular the type parses as a Python expression")(json_schema_anyof)
